@@ -136,6 +136,7 @@ FUNCS = [
     ("C11", "dataiter/vector.py", "Vector.rank", [], "Vector_rank"),
     ("C11", "dataiter/vector.py", "Vector.unique", [], "Vector_unique"),
     ("C11", "dataiter/vector.py", "Vector._optimize_for_argsort", [], "Vector_optimize_for_argsort"),
+    ("C16", "dataiter/list_of_dicts.py", "ListOfDicts.group_by", [], "ListOfDicts_group_by"),
     ("C16", "dataiter/list_of_dicts.py", "ListOfDicts.anti_join", [], "ListOfDicts_anti_join"),
     ("C16", "dataiter/list_of_dicts.py", "ListOfDicts.inner_join", [], "ListOfDicts_inner_join"),
     ("C16", "dataiter/list_of_dicts.py", "ListOfDicts.full_join", [], "ListOfDicts_full_join"),
@@ -728,10 +729,27 @@ class Translator:
         # Out.fall carries the effects too
         ps = "".join(f" ({n} : {t})" for n, t in self.params)
         decos = ", ".join(lean_str(ast.unparse(d)) for d in self.fn.decorator_list)
+        a = self.fn.args
+        sig = []
+        pos = a.posonlyargs + a.args
+        defaults = [None] * (len(pos) - len(a.defaults)) + list(a.defaults)
+        for arg, d in zip(pos, defaults):
+            sig.append(arg.arg + ("=" + ast.unparse(d) if d is not None else ""))
+        if a.vararg:
+            sig.append("*" + a.vararg.arg)
+        elif a.kwonlyargs:
+            sig.append("*")
+        for arg, d in zip(a.kwonlyargs, a.kw_defaults):
+            sig.append(arg.arg + ("=" + ast.unparse(d) if d is not None else ""))
+        if a.kwarg:
+            sig.append("**" + a.kwarg.arg)
+        sig = ", ".join(lean_str(x) for x in sig)
         return (f"/-- {origin} (sha256 of the function source: {digest}) -/\n"
                 f"def {lean_name} (truth : Term → Bool){ps} : Out :=\n{body}\n\n"
                 f"/-- the decorators of {origin}, outermost first -/\n"
-                f"def {lean_name}_decorators : List String := [{decos}]\n")
+                f"def {lean_name}_decorators : List String := [{decos}]\n\n"
+                f"/-- the signature of {origin}: parameters in order, with the source text of their defaults -/\n"
+                f"def {lean_name}_signature : List String := [{sig}]\n")
 
 
 CMP = {ast.Eq: "=", ast.NotEq: "≠", ast.Lt: "<", ast.LtE: "≤", ast.Gt: ">", ast.GtE: "≥"}
